@@ -132,3 +132,7 @@ impl Defaults for Dz {
         (self.v, self.adds, self.urgent)
     }
 }
+
+/// a second aliased group in which the two instantiations of the same generic trait are NEIGHBOURS in name order
+cglue_trait_group!(AliasGrp2, MainT, { Getter<u8> = Ga, Getter<u64> = Gb, Delta });
+cglue_impl_group!(Sg, AliasGrp2, { Getter<u8> = Ga, Getter<u64> = Gb, Delta });
